@@ -67,20 +67,28 @@ impl Hook {
             &self.native_after
         };
 
+        // The instruction that ends the run has already set `finished` when its after-hooks run.
+        // Clear it while they run, so that it only signals a stop requested by one of these hooks.
+        let was_finished = ax.state.finished;
+        ax.state.finished = false;
+
         for function in functions {
             let res = match function(ax, mnemonic) {
                 Ok(res) => res,
                 Err(e) => {
                     // a failing hook is no longer running; otherwise no hook could ever be registered again
                     ax.hooks.running = false;
+                    ax.state.finished |= was_finished;
                     return Err(e.into());
                 }
             };
             if ax.state.finished || res == HookResult::Handled {
                 ax.hooks.running = false;
+                ax.state.finished |= was_finished;
                 return Ok(());
             }
         }
+        ax.state.finished = was_finished;
 
         #[cfg(all(target_arch = "wasm32", not(test)))]
         {
